@@ -11,8 +11,25 @@ pub mod walkdir {
     pub struct DirEntry { x: u8 }
     impl DirEntry {
         pub uninterp spec fn pathkey(&self) -> PathKey;
+        /// the type walkdir recorded for the entry: what lstat says, or what stat says when the walk follows links
+        pub uninterp spec fn ft_kind(&self) -> NodeKind;
+        pub uninterp spec fn followed(&self) -> bool;
+        /// A-walk/A-stable: the recorded type is the one the namespace has for the entry
+        pub open spec fn wf(&self, w: World) -> bool {
+            w.paths.contains_key(self.pathkey()) && self.ft_kind() == (if self.followed() { w.paths[self.pathkey()].tkind } else { w.paths[self.pathkey()].kind })
+        }
         #[verifier::external_body]
         pub fn into_path(self) -> (r: PathBuf) ensures r.key() == self.pathkey() { unimplemented!() }
+        #[verifier::external_body]
+        pub fn path(&self) -> (r: &Path) ensures r.key() == self.pathkey() { unimplemented!() }
+        #[verifier::external_body]
+        pub fn file_type(&self) -> (r: fs::FileType) ensures r.kind() == self.ft_kind() { unimplemented!() }
+        #[verifier::external_body]
+        pub fn path_is_symlink(&self) -> (r: bool) { unimplemented!() }
+        #[verifier::external_body]
+        pub fn depth(&self) -> (r: usize) { unimplemented!() }
+        #[verifier::external_body]
+        pub fn file_name(&self) -> (r: &OsStr) { unimplemented!() }
     }
     #[verifier::external_body]
     pub struct Error { x: u8 }
@@ -61,17 +78,70 @@ pub mod walkdir {
         open spec fn peek(&self, i: int) -> Option<std::result::Result<DirEntry, Error>> { if 0 <= i < walk_remaining(self).len() { Some(walk_remaining(self)[i]) } else { None } }
     }
 }
-pub use walkdir::WalkDir;
+pub use walkdir::{WalkDir, DirEntry};
 
-/// paths.rs: the `ignore` crate (TRUSTED, outside Verus): building the matcher may fail, asking it has no effect
+/// paths.rs: the `ignore` crate (TRUSTED, outside Verus).  What a matcher excludes is the crate's business (assumed to be git's pattern
+/// semantics): `gi_ignored(matcher, path, is_dir)`.  What xcp decides itself - whether a matcher is built at all, from which root and which
+/// file, and which `is_dir` flag each entry is asked with - is under contract (C17).
+pub mod ignore {
+    pub mod gitignore { pub use super::super::{Gitignore, GitignoreBuilder}; }
+    pub use super::{Match, IgnoreError as Error};
+}
 #[verifier::external_body]
 pub struct Gitignore { x: u8 }
+pub uninterp spec fn gi_ignored(gi: Gitignore, path: PathKey, is_dir: bool) -> bool;
+impl Gitignore {
+    /// the directory the patterns are anchored at, and the files they were read from (in order)
+    pub uninterp spec fn root(&self) -> PathKey;
+    pub uninterp spec fn files(&self) -> Seq<PathKey>;
+    #[verifier::external_body]
+    pub fn matched<P: PathLike>(&self, path: P, is_dir: bool) -> (r: Match) ensures r.ignores() == gi_ignored(*self, path.pkey(), is_dir) { unimplemented!() }
+    #[verifier::external_body]
+    pub fn matched_path_or_any_parents<P: PathLike>(&self, path: P, is_dir: bool) -> (r: Match) { unimplemented!() }
+}
+/// ignore::Match<&Glob>
 #[verifier::external_body]
-pub fn parse_ignore(source: &Path, config: &Config, Tracked(w): Tracked<&mut World>) -> (r: Result<Option<Gitignore>>)
-    ensures fr_ro(*old(w), *final(w)), final(w).faults == old(w).faults + (if r is Err { 1nat } else { 0 }),
+pub struct Match { x: u8 }
+impl Match {
+    pub uninterp spec fn ignores(&self) -> bool;
+    #[verifier::external_body] pub fn is_ignore(&self) -> (r: bool) ensures r == self.ignores() { unimplemented!() }
+    #[verifier::external_body] pub fn is_whitelist(&self) -> (r: bool) ensures r ==> !self.ignores() { unimplemented!() }
+    #[verifier::external_body] pub fn is_none(&self) -> (r: bool) ensures r ==> !self.ignores() { unimplemented!() }
+}
+#[verifier::external_body]
+pub struct IgnoreError { x: u8 }
+pub uninterp spec fn any_from_ignore(e: IgnoreError) -> AnyError;
+impl From<IgnoreError> for AnyError { #[verifier::external_body] fn from(e: IgnoreError) -> (r: AnyError) { unimplemented!() } }
+impl vstd::std_specs::convert::FromSpecImpl<IgnoreError> for AnyError {
+    open spec fn obeys_from_spec() -> bool { true }
+    open spec fn from_spec(e: IgnoreError) -> AnyError { any_from_ignore(e) }
+}
+#[verifier::external_body]
+pub struct GitignoreBuilder { x: u8 }
+impl GitignoreBuilder {
+    pub uninterp spec fn root(&self) -> PathKey;
+    pub uninterp spec fn files(&self) -> Seq<PathKey>;
+    #[verifier::external_body]
+    pub fn new<P: PathLike>(root: P) -> (r: GitignoreBuilder) ensures r.root() == root.pkey(), r.files() == Seq::<PathKey>::empty() { unimplemented!() }
+    /// reads the file now; a file that is not there (or cannot be read) adds no pattern and reports it in the result, which xcp drops:
+    /// not counted as a fault here (see DESIGN §12)
+    #[verifier::external_body]
+    pub fn add<P: PathLike>(&mut self, path: P) -> (r: Option<IgnoreError>)
+        ensures final(self).root() == old(self).root(), final(self).files() == old(self).files().push(path.pkey()) { unimplemented!() }
+    /// compiles the patterns: a malformed glob is an error
+    #[verifier::external_body]
+    pub fn build(&self, Tracked(w): Tracked<&mut World>) -> (r: std::result::Result<Gitignore, IgnoreError>)
+        ensures fr_ro(*old(w), *final(w)), final(w).faults == old(w).faults + (if r is Err { 1nat } else { 0 }),
+            r is Ok ==> r->Ok_0.root() == self.root() && r->Ok_0.files() == self.files(),
+    { unimplemented!() }
+}
+/// the filter as the walk's closure calls it (no world token can enter a closure): the contract is the one the real body is verified
+/// against under the name `ignore_filter__impl` (contracts/65_libxcp_paths.spec), restated
+#[verifier::external_body]
+pub fn ignore_filter(entry: &walkdir::DirEntry, ignore: &Option<Gitignore>) -> (r: bool)
+    ensures ignore is None ==> r,
+        ignore is Some ==> r == !gi_ignored(ignore->Some_0, entry.pathkey(), entry.ft_kind() == NodeKind::Dir),
 { unimplemented!() }
-#[verifier::external_body]
-pub fn ignore_filter(entry: &walkdir::DirEntry, ignore: &Option<Gitignore>) -> (r: bool) { unimplemented!() }
 
 pub uninterp spec fn any_from_walk(e: walkdir::Error) -> AnyError;
 impl From<walkdir::Error> for AnyError { #[verifier::external_body] fn from(e: walkdir::Error) -> (r: AnyError) { unimplemented!() } }
